@@ -96,6 +96,11 @@ def int_str_axioms():
                       patterns=[str_of_int(i)])]
 
 
+try:
+    z3.set_param("warning", False)
+except Exception:
+    pass
+
 _fresh = itertools.count()
 
 
